@@ -386,15 +386,23 @@ def part_a(ctx, bins_future, pool, rnd):
     # a stuck replay is a deadlock only if the model says the schedule terminates (it does: Returns/NoLeak hold
     # for every N, W) and the hang reproduces
     flaky = []
+    unconfirmed = []
+    confirmed = 0
     for r in list(recs):
         if r["stuck"] and not r["crashed"]:
+            if confirmed >= 3:
+                unconfirmed.append(r["id"])          # enough reproduced hangs already: do not wait for more
+                recs.remove(r)
+                continue
             s = next(x for x in scheds if x["id"] == r["id"])
             again = [run_parmap_batch(ctx, bins["parmap"], [s], "retry%d-%d" % (r["id"], k), "60s")[0] for k in range(2)]
             if all(x["stuck"] for x in again):
+                confirmed += 1
                 continue
             flaky.append(r["id"])
             good = next(x for x in again if not x["stuck"])
             recs[recs.index(r)] = good
+    ctx.extra["parmap_hangs_not_rechecked"] = unconfirmed
     ctx.extra["parmap_timeouts_not_reproduced"] = flaky
 
     strip = [{k: v for k, v in r.items() if k not in ("race_text", "crash_text")} for r in recs]
@@ -422,13 +430,13 @@ def part_a(ctx, bins_future, pool, rnd):
             continue                       # counted in the evidence, not printed again
         what = {
             "order": "MapParallel(a=%s, numRoutines=%d) under completion order %s returned %s; the sequential Map returns %s"
-                     % (r["a"][:12], r["w"], r["order"] or "(free)", r["res"][:12], r["seq"][:12]),
+                     % (r["a"][:12], r["w"], (r["order"] if r["gated"] else "(free)"), r["res"][:12], r["seq"][:12]),
             "noreturn": "MapParallel(len(a)=%d, numRoutines=%d) under completion order %s did not return: %s"
-                        % (r["n"], r["w"], r["order"] or "(free)", r["stuck"]),
+                        % (r["n"], r["w"], (r["order"] if r["gated"] else "(free)"), r["stuck"]),
             "leak": "MapParallel(len(a)=%d, numRoutines=%d) under completion order %s left goroutines behind: %d before, %d after"
-                    % (r["n"], r["w"], r["order"] or "(free)", r["gbase"], r["gafter"]),
+                    % (r["n"], r["w"], (r["order"] if r["gated"] else "(free)"), r["gbase"], r["gafter"]),
             "race": "race detector report during MapParallel(len(a)=%d, numRoutines=%d), completion order %s"
-                    % (r["n"], r["w"], r["order"] or "(free)"),
+                    % (r["n"], r["w"], (r["order"] if r["gated"] else "(free)")),
         }[f["kind"]]
         sch = next(x for x in scheds if x["id"] == r["id"])
         ctx.violation(what, {"replay.json": {"kind": "parmap", "schedule": sch}, "record.json": r,
@@ -762,6 +770,8 @@ def run(ctx):
     rnd = random.Random(ctx.seed)
     t0 = time.time()
     nproc = max(2, int(os.environ.get("VERIF_NPROC", "4")))       # the machine is shared: at most 4 processes of ours at a time
+    # every TLC run here is small: keep each JVM to a few threads (16-core default: 13 GC + 12 JIT threads per JVM)
+    os.environ.setdefault("JAVA_TOOL_OPTIONS", "-XX:ParallelGCThreads=2 -XX:CICompilerCount=2")
     half = max(1, nproc // 2)
 
     def build():
